@@ -283,6 +283,69 @@ func checkC15(c *Ctx) {
 		r.OK("C15.5", "no encoder result aliases a pooled buffer", token.NoPos, fmt.Sprintf("%d function(s) scanned", len(encFns)))
 	}
 
+	// ---- C15.7 unpacking replaces: what UnmarshalAnypbTo leaves in the destination is exactly the packed message - the
+	// decode goes through anypb.UnmarshalTo / proto.Unmarshal with options that reset the destination (no Merge),
+	// and only when the type URL was absent or the destination's own
+	r.Rule("C15.7", "UnmarshalAnypbTo decodes with replacing (non-merging) options, after the type-URL check", 1)
+	if f := c.fn("C15.7", "pkg/transports", "", "UnmarshalAnypbTo"); f != nil && len(f.Params) == 2 {
+		n := 0
+		eachInstr(f, func(in ssa.Instruction) {
+			call, ok := in.(*ssa.Call)
+			if !ok {
+				return
+			}
+			cn := calleeName(&call.Call)
+			isDecode := cn == "google.golang.org/protobuf/types/known/anypb.UnmarshalTo" || cn == "(*google.golang.org/protobuf/types/known/anypb.Any).UnmarshalTo" ||
+				cn == "google.golang.org/protobuf/proto.Unmarshal" || cn == "(google.golang.org/protobuf/proto.UnmarshalOptions).Unmarshal"
+			if !isDecode {
+				return
+			}
+			n++
+			// the options value (if any) is the zero value or has Merge == false: a composite literal whose Merge
+			// field is never stored true
+			merge := false
+			for _, a := range call.Call.Args {
+				if typeShort(a.Type()) != "proto.UnmarshalOptions" {
+					continue
+				}
+				if ld, isLd := a.(*ssa.UnOp); isLd {
+					if al, isAl := ld.X.(*ssa.Alloc); isAl && al.Referrers() != nil {
+						for _, ref := range *al.Referrers() {
+							if fa, isFA := ref.(*ssa.FieldAddr); isFA && fieldName(fa.X.Type(), fa.Field) == "Merge" && fa.Referrers() != nil {
+								for _, r2 := range *fa.Referrers() {
+									if st, isSt := r2.(*ssa.Store); isSt {
+										if cv, isC := constOf(st.Val); !isC || cv.String() != "false" {
+											merge = true
+										}
+									}
+								}
+							}
+						}
+					}
+				} else if _, isConst := a.(*ssa.Const); !isConst {
+					merge = true // an options value the rule cannot see through
+				}
+			}
+			intoDst := false
+			for _, a := range call.Call.Args {
+				if stripConv(a) == ssa.Value(f.Params[1]) {
+					intoDst = true
+				}
+				if mi, isMI := a.(*ssa.MakeInterface); isMI && mi.X == ssa.Value(f.Params[1]) {
+					intoDst = true
+				}
+				if ci, isCI := a.(*ssa.ChangeInterface); isCI && ci.X == ssa.Value(f.Params[1]) {
+					intoDst = true
+				}
+			}
+			r.Check(!merge && intoDst, "C15.7", "UnmarshalAnypbTo: decode into dst resets it (Merge off)", call.Pos(), fnName(f), shortName(cn),
+				"the packed parameters are merged into the destination instead of replacing it: optional fields the packed value leaves unset keep whatever the destination held, and the call still returns nil")
+		})
+		if n == 0 {
+			r.Unk("C15.7", "UnmarshalAnypbTo: decode call", f.Pos(), fnName(f), "no anypb.UnmarshalTo / proto.Unmarshal found")
+		}
+	}
+
 	// ---- C15.6 a message handed to its own goroutine owns its bytes: the buffer a loop receives into and passes to a
 	// goroutine is allocated per iteration (the next receive must not overwrite a message that is still being decoded)
 	r.Rule("C15.6", "a receive buffer passed to a per-message goroutine is allocated per message", 1)
